@@ -112,6 +112,12 @@ class TWebSocket:
             raise OSError('closed')
         if c.client_closed or c.send_fails:
             raise OSError('peer gone')
+        # a scenario may ask for ONE write (the n-th of the whole run) to
+        # time out, as a socket with a time-out set does on a slow peer
+        n = getattr(self.sim, '_ws_writes', 0) + 1
+        self.sim._ws_writes = n
+        if getattr(self.sim, 'ws_write_timeout_at', None) == n:
+            raise TimeoutError('timed out')
         if not isinstance(msg, (str, bytes, bytearray)):
             c.proto.append('frame of type %s' % type(msg).__name__)
         c.frames.append({'clk': self.sim.tick(), 't': self.sim.now,
